@@ -1112,7 +1112,7 @@ func runOnce(h *core.History, scratch string) (*core.Result, bool) {
 				res.Hit("op-on-closed")
 			}
 		case opGet:
-			v, err := w.p.Get(key)
+			v, err := w.p.Get(res.CallerKey(key))
 			class = classOf(err)
 			if err == nil {
 				ret = core.B(canon(v))
@@ -1136,7 +1136,7 @@ func runOnce(h *core.History, scratch string) (*core.Result, bool) {
 				res.Hit("op-on-closed")
 			}
 		case opHas:
-			class = classOf(w.p.Has(key))
+			class = classOf(w.p.Has(res.CallerKey(key)))
 		case opTick:
 			if w.delay == 1 && w.levelDB && open {
 				// sleep until the next firing of every timer has certainly happened
